@@ -59,16 +59,16 @@ func (o *oracle) inWindow(clock, slot uint64) bool {
 	return clock == slot
 }
 
-func assigned(kind string, r fres) []duty {
-	if kind == "att" {
-		return append([]duty(nil), r.duties...)
-	}
+// assigned: the duties the chain assigns, at a successful fetch, to THIS operator's active validators (own share, not
+// liquidated, attesting at the epoch the handler asked for) — by the harness's own registry, not by what the
+// controller's index functions returned
+func assigned(a atom) []duty {
 	in := map[uint64]bool{}
-	for _, v := range r.committee {
+	for _, v := range a.own {
 		in[v] = true
 	}
 	var out []duty
-	for _, d := range r.duties {
+	for _, d := range a.res.duties {
 		if in[d.vidx] {
 			out = append(out, d)
 		}
@@ -155,10 +155,10 @@ func (o *oracle) observe(p op, atoms []atom) []violation {
 			switch a.tag {
 			case "ok":
 				k := o.keyOfArg(a.arg)
-				as := assigned(o.kind, a.res)
+				as := assigned(a)
 				o.older[k] = append(o.older[k], o.latest[k]...)
 				o.latest[k] = as
-				if uniqueKeys(o.kind, a.res.duties) {
+				if uniqueKeys(o.kind, as) {
 					o.due[k] = as
 				} else {
 					delete(o.due, k)
